@@ -121,6 +121,10 @@ func (f *RequiredField) DoRead(r io.ReadSeeker, pg Page) (io.Reader, []int, erro
 			return nil, nil, err
 		}
 
+		if err := supportedPage(ph, false, false); err != nil {
+			return nil, nil, err
+		}
+
 		sizes = append(sizes, int(ph.DataPageHeader.NumValues))
 
 		data, err := pageData(r, ph, pg)
@@ -285,6 +289,10 @@ func (f *OptionalField) DoRead(r io.ReadSeeker, pg Page) (io.Reader, []int, erro
 			return nil, nil, err
 		}
 
+		if err := supportedPage(ph, true, f.repeated); err != nil {
+			return nil, nil, err
+		}
+
 		data, err := pageData(rc, ph, pg)
 		if err != nil {
 			return nil, nil, err
@@ -353,6 +361,25 @@ func (r *readCounter) Read(p []byte) (int, error) {
 	n, err := r.r.Read(p)
 	r.n += int64(n)
 	return n, err
+}
+
+// supportedPage returns an error for a page this reader cannot decode: it
+// only reads v1 data pages with PLAIN values and, on columns that have
+// definition (defs) or repetition (reps) levels, RLE encoded levels.
+func supportedPage(ph *sch.PageHeader, defs, reps bool) error {
+	if ph.Type != sch.PageType_DATA_PAGE || ph.DataPageHeader == nil {
+		return fmt.Errorf("unsupported page type: %s", ph.Type)
+	}
+	if ph.DataPageHeader.Encoding != sch.Encoding_PLAIN {
+		return fmt.Errorf("unsupported value encoding: %s", ph.DataPageHeader.Encoding)
+	}
+	if defs && ph.DataPageHeader.DefinitionLevelEncoding != sch.Encoding_RLE {
+		return fmt.Errorf("unsupported definition level encoding: %s", ph.DataPageHeader.DefinitionLevelEncoding)
+	}
+	if reps && ph.DataPageHeader.RepetitionLevelEncoding != sch.Encoding_RLE {
+		return fmt.Errorf("unsupported repetition level encoding: %s", ph.DataPageHeader.RepetitionLevelEncoding)
+	}
+	return nil
 }
 
 func pageData(r io.Reader, ph *sch.PageHeader, pg Page) ([]byte, error) {
